@@ -7,19 +7,19 @@ open Nomt Nomt.Cache
 
 /-- **T10_reopen_caches_transparent**: run any history `before` on a coherent cache, drop the handle (both caches are
 in-memory only), open again with ANY valid cache configuration (`PageCache::new` with the stored root page; shard count
-1…64, 1 MiB ≤ size, any pinned levels; prepopulation is a `fill` operation of `after`) and run any history `after`: the
+1…64, any size — 0 MiB included —, any pinned levels; prepopulation is a `fill` operation of `after`) and run any history `after`: the
 reads of `after` return what they return on the handle that was never closed — namely the store's values. -/
 theorem T10_reopen_caches_transparent {P : Type} (s : PState P) (w : s.pc.WF) (h : Coh s.pc s.store)
     (before after : List (POp P)) (hvb : ∀ op ∈ before, op.Valid) (hva : ∀ op ∈ after, op.Valid)
-    (dbg : Bool) (n size fl : Nat) (hn : 1 ≤ n ∧ n ≤ 64) (hs : 1 ≤ size ∧ size * 1024 * 1024 ≤ usizeMax) :
+    (dbg : Bool) (n size fl : Nat) (hn : 1 ≤ n ∧ n ≤ 64) (hs : size * 1024 * 1024 ≤ usizeMax) :
     ∃ s₁ o₁ s₂ o₂ pc s₃,
       prun {} s before = .ok (s₁, o₁) ∧
       prun {} s₁ after = .ok (s₂, o₂) ∧
-      PageCache.new dbg (s₁.store []) n size fl = .ok pc ∧
+      PageCache.new {} dbg (s₁.store []) n size fl = .ok pc ∧
       prun {} ⟨pc, s₁.store⟩ after = .ok (s₃, o₂) ∧ s₃.store = s₂.store := by
   obtain ⟨s₁, r₁, _, c₁, sm₁⟩ := prun_ok s w h before hvb
   obtain ⟨s₂, r₂, st₂, _, _⟩ := prun_ok s₁ (sm₁.wf w) c₁ after hva
-  have e := PageCache.new_ok dbg (s₁.store []) n size fl hn.1 hn.2 hs.1 hs.2
+  have e := PageCache.new_ok dbg (s₁.store []) n size fl hn.1 hn.2 hs
   obtain ⟨s₃, r₃, st₃, _, _⟩ := prun_ok ⟨_, s₁.store⟩
     ⟨by simp [freshShards_length]; exact hn.1, by simp [freshShards_length]; exact hn.2⟩
     (fresh_coh n _ fl (s₁.store []) s₁.store (fun r hr => hr)) after hva
@@ -28,11 +28,11 @@ theorem T10_reopen_caches_transparent {P : Type} (s : PState P) (w : s.pc.WF) (h
 def exBefore : List (POp Nat) := [.commit [([], some ⟨1, 1⟩), ([7], some ⟨2, 2⟩)], .read [7]]
 def exAfter : List (POp Nat) := [.fill [[7]], .read [7], .read [], .read [8]]
 
-/-- non-vacuity: commit, reopen with 64 shards / 3 pinned levels and prepopulation, read -/
+/-- non-vacuity: commit, reopen with 64 shards / `page_cache_size = 0` / 3 pinned levels and prepopulation, read -/
 example : ∃ s₁ o₁ s₂ pc s₃,
     prun (P := Nat) {} ⟨{ shards := freshShards 1 4, root := none, fixedLevels := 0 }, fun _ => none⟩ exBefore = .ok (s₁, o₁) ∧
     prun {} s₁ exAfter = .ok (s₂, [some ⟨2, 2⟩, some ⟨1, 1⟩, none]) ∧
-    PageCache.new false (s₁.store []) 64 2 3 = .ok pc ∧
+    PageCache.new {} false (s₁.store []) 64 0 3 = .ok pc ∧
     prun {} ⟨pc, s₁.store⟩ exAfter = .ok (s₃, [some ⟨2, 2⟩, some ⟨1, 1⟩, none]) := by
   have hvb : ∀ op ∈ exBefore, op.Valid := by
     intro op hop
@@ -45,7 +45,7 @@ example : ∃ s₁ o₁ s₂ pc s₃,
   obtain ⟨s₁, o₁, s₂, o₂, pc, s₃, r₁, r₂, e, r₃, _⟩ := T10_reopen_caches_transparent (P := Nat)
     ⟨{ shards := freshShards 1 4, root := none, fixedLevels := 0 }, fun _ => none⟩
     ⟨by simp [freshShards_length], by simp [freshShards_length]⟩
-    (fresh_coh 1 4 0 none _ (fun r hr => by cases hr)) exBefore exAfter hvb hva false 64 2 3 (by decide) (by decide)
+    (fresh_coh 1 4 0 none _ (fun r hr => by cases hr)) exBefore exAfter hvb hva false 64 0 3 (by decide) (by decide)
   -- the observed values are those of the uncached run
   obtain ⟨s₁', q₁, st₁, c₁, sm₁⟩ := prun_ok (P := Nat)
     ⟨{ shards := freshShards 1 4, root := none, fixedLevels := 0 }, fun _ => none⟩
